@@ -2,6 +2,7 @@
 package c13
 
 import (
+	"time"
 	"encoding/json"
 	"fmt"
 	"regexp"
@@ -44,8 +45,30 @@ type input struct {
 
 var posRe = regexp.MustCompile(`\S+\.ebnf:\d+:\d+`)
 
-// signature is everything emerge derives from a specification, without positions.
+// signature is everything emerge derives from a specification, without positions.  A specification of a few
+// kilobytes is processed in milliseconds; a call that has not returned after 20 s (tried twice) is reported as "does
+// not return for this layout" - the one way an endless loop in the reader can be told from a slow machine.
 func signature(text string) (string, error) {
+	type result struct {
+		sig string
+		err error
+	}
+	for attempt := 0; attempt < 2; attempt++ {
+		done := make(chan result, 1)
+		go func() {
+			s, e := signatureNow(text)
+			done <- result{s, e}
+		}()
+		select {
+		case r := <-done:
+			return r.sig, r.err
+		case <-time.After(20 * time.Second):
+		}
+	}
+	return "", fmt.Errorf("emerge does not return for this layout of the specification (%d bytes; two attempts of 20 s, the normal cost is milliseconds)", len(text))
+}
+
+func signatureNow(text string) (string, error) {
 	var sp *spec.Spec
 	var err error
 	if perr := rec.Guard(func() { sp, err = spec.Parse("t.ebnf", strings.NewReader(text)) }); perr != nil {
